@@ -191,6 +191,7 @@ def leak_class(model, s, got):
 
 
 PROFILE = {
+    'vanish_at_accept_pct': 15,      # direct WebSocket opens whose peer is gone at the handshake
     'client_flavours': ['plain', 'plain', 'plain', 'plain', 'jsonp', 'gzip', 'jsonp+gzip'],
     'world_kw_st': st.fixed_dictionaries({
         'handler_delay': st.sampled_from([{}, {}, {}, {'disconnect': 0.25}, {'message': 0.25},
